@@ -534,9 +534,20 @@ def analyse(label, t0, share, do_cuts, st: Stats, count=True, do_gen2=False):
             whole = A.outcome(lambda: A.build(t0, share)._normalize())
             if count:
                 st.inc("transitions")
-            if whole[0] != "expr" or A._spelling_key(whole[1]) != A._spelling_key(nf[1]):
-                p08.append(("end-to-end", f"_normalize() gives {whole if whole[0] != 'expr' else M.show(whole[1])}, "
-                            f"the composition of steps gives {M.show(nf[1])}", None))
+            if whole[0] == "expr" and tr.steps >= be.REDUCTION_STEPS_BOUND:
+                # the real driver gives up after REDUCTION_STEPS_BOUND steps and returns a partially reduced result
+                # (the trace above was followed to its end): that result must preserve the meaning as well
+                probs, judged, _ = sem_compare(t0, whole[1])
+                if count:
+                    st.inc("give_up_results_checked")
+                    st.inc("edge_points_judged", judged)
+                if probs:
+                    p08.append(("give-up", f"_normalize() gave up after {be.REDUCTION_STEPS_BOUND} steps and returned an expression "
+                                           f"of {M.size(whole[1])} nodes that does not preserve the meaning: {probs[0]}", None))
+            elif whole[0] != "expr" or A._spelling_key(whole[1]) != A._spelling_key(nf[1]):
+                shown = str(whole)[:300] if whole[0] != "expr" else M.show(whole[1])[:300]
+                p08.append(("end-to-end", f"_normalize() and the composition of its steps differ: _normalize() gives {shown} ..., "
+                            f"the steps give {M.show(nf[1])[:300]}", None))
             if not A.well_formed(nf[1]):
                 p08.append(("well-formed", f"normal form {M.show(nf[1])} has a parameter outside its documented range", None))
         # ---- give-up behaviour: every cut of the step budget
